@@ -36,6 +36,15 @@ def skippedRows (skip : Skip) (groupLens : List Nat) : Nat :=
   | some (g, inner) =>
     (match inner with | some (r, _) => r | none => 0) + (groupLens.take g).sum
 
+/-- `table.skipped_rows` as stored on the fragment: the rows of a header that does not fit and is not
+rendered on the *first* fragment are skipped rows too (repair 02afb22:
+`if collapse and has_header and header is None and skip_stack is None:
+skipped_rows = len(table.children[0].children)`).  `headerShown` = the fragment repeats the header. -/
+def finalSkippedRows (skip : Skip) (groupLens : List Nat) (hasHeader headerShown : Bool) : Nat :=
+  if hasHeader && !headerShown && skip.isNone then
+    (match groupLens with | h :: _ => h | [] => 0)
+  else skippedRows skip groupLens
+
 /-- `split_cells`. -/
 def splitCells (skip : Skip) : Bool :=
   match skip with
@@ -79,5 +88,11 @@ def splitCellY (rowY : Rat) (collapse hasHeader resumed : Bool) (headerBottoms :
     | some m => rowY + m
     | none => rowY
   else rowY
+
+/-- Border-box height of a cell (not row-spanning) of the first body row of a fragment after the
+stretching pass of `group_layout`: every cell reaches the bottom of its row, from wherever it starts
+(`splitCellY`). -/
+def splitCellHeight (rowY rowHeight : Rat) (collapse hasHeader resumed : Bool) (headerBottoms : List Rat) : Rat :=
+  rowY + rowHeight - splitCellY rowY collapse hasHeader resumed headerBottoms
 
 end Wp.SplitBorders
